@@ -551,14 +551,21 @@ theorem setIface_setIface (s : Net) (i : Nat) (f g : Iface → Iface) :
   funext j
   by_cases h : j = i <;> simp [h]
 
-/-- the proxy selection of `reattach_interface` (`proxy_nic != "" and proxy_nic != server_nic`) is the model's
-    `if p = some r then none else p` -/
-theorem reattachProxy_matches_source (r : Nat) (p : Option Nat) :
-    (if genReattachProxySelected r p then p else none) = (if p = some r then none else p) := by
-  unfold genReattachProxySelected
+/-- the proxy selection of `reattach_interface` (`proxy_nic != "" and proxy_nic != server_nic`, then the lookup of the
+    proxy interface, which would be a `KeyError` for the empty name) is the model's `if p = some r then none else p`;
+    it never raises and leaves the state alone -/
+theorem reattachProxy_matches_source (r : Nat) (p : Option Nat) (s : Net) :
+    genReattachProxy r p s = .ok ((if p = some r then none else p), s) := by
+  unfold genReattachProxy genReattachProxySelected lookupNic
   cases p with
-  | none => simp [Id.run]
-  | some q => by_cases h : q = r <;> simp [Id.run, h] <;> (show (!(q == r)) = true) <;> simp [h]
+  | none => rfl
+  | some q =>
+    by_cases h : q = r
+    · subst h
+      simp [Id.run, pure, StateT.pure, Except.pure]
+    · have h1 : ((some q : Option Nat) == some r) = false := by simp [h]
+      have h0 : ((some q : Option Nat) == none) = false := by simp
+      simp [Id.run, pure, StateT.pure, Except.pure, bind, StateT.bind, Except.bind, h, h0, h1]
 
 /-- the attach part of `reattach_interface` — detach from the OLD netconfig (`KeyError` when the address is not
     registered there), allocate in the new one, store the address, `add_interface` — is the first half of the model's
@@ -593,9 +600,8 @@ theorem reattachAttach_eq (s : Net) (c tn on : Nat) (hc : (s.iface c).nc = some 
 theorem reattach_matches_source (s : Net) (c r : Nat) (p : Option Nat) :
     genReattach c r p s = (reattach s c r p).map (fun s' => ((), s')) := by
   unfold genReattach reattach
-  simp only [reattachProxy_matches_source]
+  simp only [bind, StateT.bind, Except.bind, reattachProxy_matches_source]
   generalize (if p = some r then none else p) = p'
-  simp only [bind, StateT.bind, Except.bind]
   cases hr : (s.iface r).nc with
   | none => simp only [ncOf, hr]; rfl
   | some tn =>
